@@ -221,6 +221,9 @@ func (c *cmp) typ(a, b *Type, path string, inUnion bool) *verdict {
 // expected computes the relation a single difference must produce under fl,
 // from the construction alone.
 func expected(d diff, fl flags) string {
+	if d.Class == "ref-retarget" {
+		return "" // not decidable from the construction: the reference oracle alone judges
+	}
 	if fl.F && d.Below {
 		return "equal"
 	}
